@@ -58,6 +58,17 @@ CHECKS = {
              'Not covered: cmp of sequences and DIEs (address sets: C16).',
         technique='CBMC code contracts + order-axiom lemmas on C lowered from the real C++ per run',
     ),
+    'C12': dict(
+        category='other',
+        text='BOUNDED slice: the deep-copy mechanism only. stack::stack(stack const&) (stack.cc) and value_seq::value_seq(value_seq const&) with '
+             'clone_seq (value-seq.cc) are lowered per run; for stacks/sequences of <= 4 values the copy has equal contents in the same order, shares '
+             'no value object and no element vector with its source, consists of distinct objects, and the source is not modified.',
+        design_ref='DESIGN.md section 4 C12',
+        note='bounded; SLICE: that ops are const with all run-time state in the per-result state area, append-only caches, and the behaviour of '
+             'zw_query_execute/zw_result_next under interleaving are NOT covered. value::clone() of the other value classes is modelled, not checked. '
+             'Trusted: cxx2c lowering; model of unique_ptr/vector/shared_ptr.',
+        technique='bounded unwinding (CBMC) of C lowered from the real C++ per run',
+    ),
     'C13': dict(
         category='proof',
         text='Slice: the layout arithmetic that places every operator state in the shared state area (layout::reserve, align, '
